@@ -11,7 +11,7 @@ ID = "C26"
 LEAN_MODULES = ["Ebv.Props.C26"]
 MODEL_MODULES = ["Ebv.Model.Motor"]
 DRIVER = "Drivers/C26.lean"
-THEOREMS = ["Ebv.C26.motor_partial", "Ebv.C26.motor_full_refuted", "Ebv.C26.spec_within_vmax",
+THEOREMS = ["Ebv.C26.motor_exact", "Ebv.C26.before_fix_refuted", "Ebv.C26.spec_within_vmax",
             "Ebv.C26.spec_respects_switches", "Ebv.C26.spec_accel_limited", "Ebv.C26.program_within_vmax"]
 TRUSTED = ["hand-written model Ebv.Motor.program of the generated Motor program, tied by exact correspondence with the real bytecode "
            "(re-assembled each run) executed in harness/vh/interp.py for the bundled EL7041 layout",
@@ -106,8 +106,7 @@ def check_one(ctx, impl, i):
     wrap = not -32768 <= lim <= 32767
     obs = f"velocity={v} spec={s} limited={lim}"
     if inside:
-        cls = "accel-wrap" if wrap else None
-        ok = ctx.require(v == s, "velocity output differs from the limited control law", i, obs, cls)
+        ok = ctx.require(v == s, "velocity output differs from the limited control law", i, obs, None)
         if ok:
             ctx.require(abs(v) <= i["vmax"] and not (i["low"] and v < 0) and not (i["high"] and v > 0), "limit/switch corollary", i, obs)
         ctx.require(r0 == 3 and clean and en == 1, "frame not returned / other bytes changed / enable bit wrong", i, obs)
@@ -137,10 +136,10 @@ def replay(ctx, case):
     return {"result": o}
 
 
-LEVEL_TEXT = ("Lean 4 proof over a hand-written model of the generated Motor program (64-bit temporary, 16-bit store, 32-bit compares): for all inputs "
-              "satisfying the property's hypotheses and whose acceleration-limited value fits the 16-bit output, the program's velocity equals the "
-              "property's control law (motor_partial), whence |v| <= vmax, never into an active switch, |v - vprev| <= acc unless stopping; the full "
-              "statement (any acceleration limit) is refuted on a concrete witness (motor_full_refuted) and recorded as a known finding. Tie: exact "
+LEVEL_TEXT = ("Lean 4 proof over a hand-written model of the generated Motor program (limiting in the 64-bit temporary, 16-bit store, switch tests): for "
+              "all inputs satisfying the property's hypotheses (any gain, target, position, acceleration limit, switch states) the program's velocity "
+              "equals the property's control law (motor_exact, full strength since the fix: commit), whence |v| <= vmax, never into an active switch, "
+              "|v - vprev| <= acc unless stopping; the pre-fix order of operations is kept as a refuted variant (before_fix_refuted). Tie: exact "
               "correspondence of the real bytecode, re-assembled every run and interpreted, with the model on boundary and random inputs.")
 LEVEL_NOTE = ("trusted: Lean kernel + standard axioms; hand model validated by differential execution of the real bytecode (not verified against it); "
               "interpreter semantics; bundled EL7041 layout only")
